@@ -47,7 +47,8 @@ var (
 	ESDT = vmcommon.ESDTSCAddress
 )
 
-// Token names.
+// Token names. The default universe uses one-byte identifiers (so that token||nonce aliasing
+// happens at nonce 1); UseLongIDs switches to identifiers of realistic shape and length.
 var (
 	F  = []byte("F")
 	F1 = []byte("F\x01")
@@ -56,6 +57,21 @@ var (
 	U  = []byte("U")
 	R  = []byte("R")
 )
+
+// LongIDs reports whether the long-identifier universe is active.
+var LongIDs = false
+
+// UseLongIDs switches the token identifiers (call only while no search is running).
+func UseLongIDs(on bool) {
+	LongIDs = on
+	if on {
+		F, S, U, R = []byte("FNGB-a1b2c3"), []byte("SFTCOLL-0a0b0c"), []byte("UNKNOWN-000000"), []byte("RCOLLECTION-112233")
+	} else {
+		F, S, U, R = []byte("F"), []byte("S"), []byte("U"), []byte("R")
+	}
+	F1 = append(append([]byte{}, F...), 1)
+	S1 = append(append([]byte{}, S...), 1)
+}
 
 // Name renders an address (or token) with its universe name.
 func Name(a []byte) string {
